@@ -56,6 +56,17 @@ type World struct {
 
 	consumerDone chan struct{}
 	consumerQuit chan struct{}
+
+	// JSON makes attempts log through a real slog JSON handler; every
+	// Write of the handler is recorded as a "json" event.
+	JSON bool
+}
+
+type jsonSink struct{ w *World }
+
+func (j jsonSink) Write(p []byte) (int, error) {
+	j.w.Log.Add(Event{Kind: "json", Att: -1, S: string(p)})
+	return len(p), nil
 }
 
 // NewWorld creates a broker with an operator channel of the given capacity
@@ -283,7 +294,12 @@ func (a *Attempt) hook(point, dir, key string) {
 
 // Logger returns the attempt's slog.Logger; every record is logged as an
 // event tagged with the attempt.
-func (a *Attempt) Logger() *slog.Logger { return slog.New(&capHandler{a: a}) }
+func (a *Attempt) Logger() *slog.Logger {
+	if a.W.JSON {
+		return slog.New(slog.NewJSONHandler(jsonSink{a.W}, nil)).With("att", a.ID)
+	}
+	return slog.New(&capHandler{a: a})
+}
 
 // Start launches the Connect call in its own goroutine.
 func (a *Attempt) Start() {
